@@ -66,7 +66,8 @@ inline Plan Gen(uint64_t seed)
       {
          // from inside a Pulse(): grow the session table (to and past its re-hash sizes 7, 14, 28, 56 ...), re-time or end somebody else
          const int n = any(); const uint32_t q = wl.below(10);
-         if ((q < 5)&&(nextId < 300)) {static const int cnts[] = {1, 2, 3, 5, 7, 8, 13, 15, 29}; const int c = cnts[wl.below(9)]; p.push_back("inpulse " + I(n) + " spawn " + I(c)); nextId += c; for (int i=nextId-c; i<nextId; i++) alive.push_back(i);}
+         if ((q < 2)&&(nextId < 300)&&(Rng(seed, "inquery").oneIn(2))) {static const int qc[] = {1, 1, 2, 3, 7, 8}; const int c = qc[wl.below(6)]; p.push_back("inquery " + I(n) + " spawn " + I(c)); nextId += c; for (int i=nextId-c; i<nextId; i++) alive.push_back(i);}
+         else if ((q < 5)&&(nextId < 300)) {static const int cnts[] = {1, 2, 3, 5, 7, 8, 13, 15, 29}; const int c = cnts[wl.below(9)]; p.push_back("inpulse " + I(n) + " spawn " + I(c)); nextId += c; for (int i=nextId-c; i<nextId; i++) alive.push_back(i);}
          else if (q < 8) p.push_back("inpulse " + I(n) + " want " + I(any()) + " " + tm(wl));
          else {const int v = any(); if (v != n) p.push_back("inpulse " + I(n) + " end " + I(v));}
          if (wl.pct(70)) p.push_back("want " + I(n) + " " + (wl.oneIn(2) ? "+0" : ("+" + U(1 + wl.below(30)))));
@@ -87,7 +88,7 @@ struct Shadow
    int id = -1; bool isPolicy = false, isFactory = false; bool attached = false, everAttached = false, sock = false;
    uint64_t want = kNever, reported = kNever; bool valid = false; int cause = 0;   // cause: 1 new, 2 invalidated, 3 pulsed
    uint64_t period = 0, pulsedIter = 0, retimedIter = 0; int holders = 0;   // retimedIter: iteration in which a callback withdrew our time in force
-   std::vector<std::vector<std::string> > inPulse;
+   std::vector<std::vector<std::string> > inPulse, inQuery;
 };
 class PSession : public AbstractReflectSession
 {
@@ -186,7 +187,14 @@ struct H
       Shadow & s = sh[id]; s.reported = s.want; s.valid = true; s.cause = 0;
       th.u(0x51); th.u((uint64_t) id); th.u(s.want); (void) callTime; (void) prev; st.inc("queries");
       if (g_verbose) fprintf(stderr, "      GetPulseTime(%d) -> %s\n", id, TS(s.want).c_str());
-      return s.want;
+      const uint64_t answer = s.want;
+      if ((!failed)&&(!s.inQuery.empty()))
+      {
+         // from inside GetPulseTime(): new sessions join while the server is in the middle of asking everybody (its session table grows, possibly re-allocating, under the server's own iteration)
+         std::vector<std::vector<std::string> > ops; ops.swap(sh[id].inQuery);
+         for (auto & t : ops) if ((t.size() >= 2)&&(t[0] == "spawn")) {th.s("inquery"); const int n = (int) std::min<uint64_t>(ToU(t[1]), 40); for (int i=0; i<n; i++) {const int nid = AllocId(); if (nid < 0) break; AddSession(nid, false, -1); SetWant(nid, g_simNowUs + 1 + (uint64_t)(i*3), true);} st.inc("p.sessions_spawned_from_inside_getpulsetime");}
+      }
+      return answer;
    }
    void OnPulse(int id, uint64_t callTime, uint64_t schedTime)
    {
@@ -324,6 +332,7 @@ inline void Exec(const Plan & plan, RunResult & res)
       else if ((t[0] == "ready")&&(t.size() >= 3)) {auto fi = h.facts.find((int) ToI(t[1])); if (fi != h.facts.end()) {fi->second->_ready = (t[2] == "1"); if (!fi->second->_ready) h.st.inc("p.factory_paused");}}
       else if ((t[0] == "want")&&(t.size() >= 3)) {uint64_t tm; if (h.ParseT(t[2], tm)) h.SetWant((int) ToI(t[1]), tm, false);}
       else if ((t[0] == "period")&&(t.size() >= 3)) {auto it = h.sh.find((int) ToI(t[1])); if (it != h.sh.end()) it->second.period = ToU(t[2]);}
+      else if ((t[0] == "inquery")&&(t.size() >= 3)) {auto it = h.sh.find((int) ToI(t[1])); if (it != h.sh.end()) {it->second.inQuery.push_back(std::vector<std::string>(t.begin()+2, t.end())); auto si = h.sess.find((int) ToI(t[1])); if (si != h.sess.end()) si->second->Inv();}}
       else if ((t[0] == "inpulse")&&(t.size() >= 3)) {auto it = h.sh.find((int) ToI(t[1])); if (it != h.sh.end()) it->second.inPulse.push_back(std::vector<std::string>(t.begin()+2, t.end()));}
       else if ((t[0] == "end")&&(t.size() >= 2)) h.EndSess((int) ToI(t[1]));
       else if ((t[0] == "out")&&(t.size() >= 3)) {auto si = h.sess.find((int) ToI(t[1])); if ((si != h.sess.end())&&(h.sh[si->first].sock)) {MessageRef m = GetMessageFromPool(1234); ByteBuffer bb; (void) bb.SetNumBytes((uint32) std::min<uint64_t>(ToU(t[2]), 100000), false); memset(bb.GetBuffer(), 7, bb.GetNumBytes()); (void) m()->AddData("d", B_RAW_TYPE, bb.GetBuffer(), bb.GetNumBytes()); (void) si->second->AddOutgoingMessage(m); h.st.inc("p.output_queued_under_policy");}}
